@@ -374,6 +374,8 @@ def apply_stage(ds, st, parallel=True):
         return ds.map(FreshFn(st['id']))
     if op == 'cycle':
         return ds.cycle()
+    if op == 'tile':
+        return ds.tile(st.get('reps', 2))
     if op == 'falsy':
         return ds.map(FalsyFn(st['id'], st['mod'], st['rem'], st['val']))
     if op == 'slice':
